@@ -263,9 +263,10 @@ type Endpoint struct {
 	Inc  int
 	addr string
 
-	ae func(*raft.AppendEntriesRequest, *raft.AppendEntriesResponse) error
-	rv func(*raft.RequestVoteRequest, *raft.RequestVoteResponse) error
-	is func(*raft.InstallSnapshotRequest, *raft.InstallSnapshotResponse) error
+	hmu sync.Mutex
+	ae  func(*raft.AppendEntriesRequest, *raft.AppendEntriesResponse) error
+	rv  func(*raft.RequestVoteRequest, *raft.RequestVoteResponse) error
+	is  func(*raft.InstallSnapshotRequest, *raft.InstallSnapshotResponse) error
 
 	dead    atomic.Bool
 	running atomic.Bool
@@ -303,14 +304,37 @@ func (e *Endpoint) Shutdown() error {
 	return nil
 }
 
+// The handlers are (re-)registered by every Start of the node, possibly while a request that passed the
+// "running" test a moment ago is being delivered: registration and look-up are synchronised here.
 func (e *Endpoint) RegisterAppendEntriesHandler(h func(*raft.AppendEntriesRequest, *raft.AppendEntriesResponse) error) {
+	e.hmu.Lock()
 	e.ae = h
+	e.hmu.Unlock()
 }
 func (e *Endpoint) RegisterRequestVoteHandler(h func(*raft.RequestVoteRequest, *raft.RequestVoteResponse) error) {
+	e.hmu.Lock()
 	e.rv = h
+	e.hmu.Unlock()
 }
 func (e *Endpoint) RegsiterInstallSnapshotHandler(h func(*raft.InstallSnapshotRequest, *raft.InstallSnapshotResponse) error) {
+	e.hmu.Lock()
 	e.is = h
+	e.hmu.Unlock()
+}
+func (e *Endpoint) aeHandler() func(*raft.AppendEntriesRequest, *raft.AppendEntriesResponse) error {
+	e.hmu.Lock()
+	defer e.hmu.Unlock()
+	return e.ae
+}
+func (e *Endpoint) rvHandler() func(*raft.RequestVoteRequest, *raft.RequestVoteResponse) error {
+	e.hmu.Lock()
+	defer e.hmu.Unlock()
+	return e.rv
+}
+func (e *Endpoint) isHandler() func(*raft.InstallSnapshotRequest, *raft.InstallSnapshotResponse) error {
+	e.hmu.Lock()
+	defer e.hmu.Unlock()
+	return e.is
 }
 func (e *Endpoint) EncodeConfiguration(c *raft.Configuration) ([]byte, error) {
 	return e.net.codec.EncodeConfiguration(c)
@@ -484,10 +508,11 @@ func (e *Endpoint) SendAppendEntries(address string, req raft.AppendEntriesReque
 	err := e.run(msg, func(dst *Endpoint, m *mon.Msg) error {
 		r := raft.AppendEntriesRequest{LeaderID: req.LeaderID, Term: req.Term, LeaderCommit: req.LeaderCommit, PrevLogIndex: req.PrevLogIndex, PrevLogTerm: req.PrevLogTerm, Entries: copyEntries(req.Entries)}
 		var rp raft.AppendEntriesResponse
-		if dst.ae == nil {
+		h := dst.aeHandler()
+		if h == nil {
 			return ErrNet
 		}
-		if err := dst.ae(&r, &rp); err != nil {
+		if err := h(&r, &rp); err != nil {
 			return err
 		}
 		m.RTerm, m.ROK, m.RIndex = rp.Term, rp.Success, rp.Index
@@ -508,10 +533,11 @@ func (e *Endpoint) SendRequestVote(address string, req raft.RequestVoteRequest) 
 	err := e.run(msg, func(dst *Endpoint, m *mon.Msg) error {
 		r := req
 		var rp raft.RequestVoteResponse
-		if dst.rv == nil {
+		h := dst.rvHandler()
+		if h == nil {
 			return ErrNet
 		}
-		if err := dst.rv(&r, &rp); err != nil {
+		if err := h(&r, &rp); err != nil {
 			return err
 		}
 		m.RTerm, m.ROK = rp.Term, rp.VoteGranted
@@ -534,10 +560,11 @@ func (e *Endpoint) SendInstallSnapshot(address string, req raft.InstallSnapshotR
 		r.Bytes = append([]byte(nil), req.Bytes...)
 		r.Configuration = append([]byte(nil), req.Configuration...)
 		var rp raft.InstallSnapshotResponse
-		if dst.is == nil {
+		h := dst.isHandler()
+		if h == nil {
 			return ErrNet
 		}
-		if err := dst.is(&r, &rp); err != nil {
+		if err := h(&r, &rp); err != nil {
 			return err
 		}
 		m.RTerm, m.RWritten = rp.Term, rp.BytesWritten
